@@ -45,14 +45,95 @@ def fix_trig(o):
     import math
     from fractions import Fraction
     m = o.model or {}
-    for leaf, (cn, sn) in (o.meta.get('trig') or {}).items():
-        if cn in m and sn in m and leaf not in m:
-            def f(v):
-                return float(Fraction(int(v['num']), int(v['den']))) if isinstance(v, dict) and 'num' in v else float(v)
+
+    def f(v):
+        return float(Fraction(int(v['num']), int(v['den']))) if isinstance(v, dict) and 'num' in v else float(v)
+
+    def app(fname, arg):
+        fi = m.get(fname)
+        if not isinstance(fi, dict) or 'entries' not in fi:
+            return None
+        for args, val in fi['entries']:
             try:
-                m[leaf] = math.atan2(f(m[sn]), f(m[cn]))
+                if abs(f(args[0]) - arg) < 1e-12:
+                    return f(val)
             except Exception:
                 pass
+        try:
+            return f(fi['else'])
+        except Exception:
+            return None
+    for leaf in (o.meta.get('trig') or {}):
+        try:
+            v = f(m[leaf]) if leaf in m else 0.0
+            c, s = app('cosf', v), app('sinf', v)
+            if c is not None and s is not None:
+                m[leaf] = math.atan2(s, c)
+        except Exception:
+            pass
+
+
+class Res:
+    """a discharged obligation as returned by a pool worker (plain data)"""
+
+    def __init__(self, d):
+        self.__dict__.update(d)
+        self.goal = True
+
+
+_W = None
+
+
+def _run_job(job):
+    """one contract case: generate its VCs, discharge them, split recorded findings; returns plain data"""
+    from pyvc.vc import discharge_local
+    ei, case = job
+    _t0 = time.time()
+    E, prop, known = _W['E'], _W['prop'], _W['known']
+    e = E.registry[ei]
+    out = dict(order=(ei, case), contract=e['cls'].name, target=e['target'], obls=[], errors=[], known_lines=[], files=[])
+    try:
+        obls = E.run_contract(e, prop, only_case=case)
+    except Exception as ex:
+        import traceback
+        traceback.print_exc()
+        out['errors'].append(f'contract {e["cls"].name}[{case}]: {type(ex).__name__}: {ex}')
+        return out
+    for x in obls:
+        x.entry = e
+    discharge_local(obls, timeout_ms=_W['timeout_ms'], seed=_W['seed'])
+    extra = []
+    for o in obls:
+        if o.status != 'violated':
+            continue
+        for k in known:
+            if k['contract'] == o.contract and k['clause'] == o.name and (k.get('case') in (None, o.case)):
+                r = E.known_split(o, k)
+                if r is None:
+                    continue
+                comp, repro = r
+                discharge_local([comp, repro], timeout_ms=_W['timeout_ms'], seed=_W['seed'])
+                if comp.status == 'valid' and repro.status == 'violated':
+                    o.status = 'known'
+                    o.known = k['id']
+                    out['known_lines'].append(f"KNOWN-FINDING: property={prop} {k['id']} {k['what']}")
+                    comp.name = o.name + f'[outside {k["id"]}]'
+                    extra.append(comp)
+                elif comp.status == 'violated':
+                    o.model = comp.model
+                    o.note = f'violation outside known finding {k["id"]}'
+                break
+    ck = E.case_kwargs(e, case)
+    for o in obls + extra:
+        out['obls'].append(dict(prop=o.prop, contract=o.contract, case=o.case, name=o.name, path=o.path, kind=o.kind,
+                                status=o.status, time=o.time, model=o.model, backend=o.backend, reason=o.reason,
+                                fullname=o.fullname, module=e['cls'].module, target=e['target'], case_kwargs=ck,
+                                known=getattr(o, 'known', None), note=getattr(o, 'note', None),
+                                meta={k: v for k, v in o.meta.items() if k in ('exception', 'trig')},
+                                is_real=(o.goal is not None or o.status in ('undecided', 'error'))))
+    out['files'] = sorted(E.I.files_used)
+    out['job_s'] = time.time() - _t0
+    return out
 
 
 def sha(path):
@@ -82,51 +163,38 @@ def main():
             import traceback
             errors.append(f'loading {m}: {type(e).__name__}: {e}')
             traceback.print_exc()
-    obls = []
-    contracts_run = []
-    for e in E.registry:
-        if prop in e['props']:
-            try:
-                o = E.run_contract(e, prop)
-            except Exception as ex:
-                import traceback
-                traceback.print_exc()
-                errors.append(f'contract {e["cls"].name}: {type(ex).__name__}: {ex}')
-                continue
-            contracts_run.append((e['cls'].name, e['target'], len(o)))
-            for x in o:
-                x.module = e['cls'].module
-                x.target = e['target']
-                x.entry = e
-            obls.extend(o)
-    timeout_ms = 20000 if tier == 'quick' else 60000
-    discharge(obls, timeout_ms=timeout_ms, seed=seed, cross_check=(tier == 'thorough'))
     known = [k for k in load_known() if k.get('property') == prop and not k.get('fixed')]
-    # ---- known findings: prove the obligation on the complement of the recorded predicate, confirm it still reproduces
+    timeout_ms = 20000 if tier == 'quick' else 60000
+    jobs = []
+    for ei, e in enumerate(E.registry):
+        if prop in e['props']:
+            for case in E.case_names(e):
+                jobs.append((ei, case))
+    global _W
+    _W = dict(E=E, prop=prop, known=known, timeout_ms=timeout_ms, seed=seed, tier=tier)
+    import multiprocessing as mp
+    results = []
+    if jobs:
+        with mp.get_context('fork').Pool(min(16, len(jobs))) as pool:
+            for r in pool.imap_unordered(_run_job, jobs, chunksize=1):
+                results.append(r)
+    results.sort(key=lambda r: r['order'])
+    if os.environ.get('VERIF_DEBUG'):
+        for r in sorted(results, key=lambda r: -r.get('job_s', 0))[:10]:
+            print('  job', r['order'], r['contract'], round(r.get('job_s', 0), 1), 's', len(r['obls']), 'obls')
+    obls = []
+    contracts_run = {}
     known_lines = []
-    extra = []
-    for o in obls:
-        if o.status != 'violated':
-            continue
-        for k in known:
-            if k['contract'] == o.contract and k['clause'] == o.name and (k.get('case') in (None, o.case)):
-                r = E.known_split(o, k)
-                if r is None:
-                    continue
-                comp, repro = r
-                discharge([comp, repro], timeout_ms=timeout_ms, seed=seed)
-                if comp.status == 'valid' and repro.status == 'violated':
-                    o.status = 'known'
-                    o.known = k['id']
-                    known_lines.append(f"KNOWN-FINDING: property={prop} {k['id']} {k['what']}")
-                    comp.name = o.name + f'[outside {k["id"]}]'
-                    extra.append(comp)
-                elif comp.status == 'violated':
-                    # a violation outside the recorded finding: report that one
-                    o.model = comp.model
-                    o.note = f'violation outside known finding {k["id"]}'
-                break
-    obls.extend(extra)
+    files_used = set(E.I.files_used)
+    for r in results:
+        errors.extend(r['errors'])
+        known_lines.extend(r['known_lines'])
+        files_used.update(r['files'])
+        key = (r['contract'], r['target'])
+        contracts_run[key] = contracts_run.get(key, 0) + len(r['obls'])
+        for d in r['obls']:
+            obls.append(Res(d))
+    contracts_run = [(c, t, n) for (c, t), n in contracts_run.items()]
     # ---- bounded stand-ins (run-time contract checks on enumerated inputs; never counted as proved)
     bounded = []
     bviol = []
@@ -150,7 +218,7 @@ def main():
         nrep += 1
         fname = re.sub(r'[^A-Za-z0-9_.-]+', '_', f'{prop}-{o.contract}-{o.case}-{o.name}')[:150] + '.json'
         path = os.path.join(VERIF, 'replays', fname)
-        case_kwargs = E.case_kwargs(o.entry, o.case)
+        case_kwargs = o.case_kwargs
         fix_trig(o)
         spec = {'property': prop, 'obligation': o.fullname, 'contract': o.contract, 'module': o.module, 'target': o.target,
                 'case': o.case, 'case_kwargs': case_kwargs, 'clause': o.name, 'model': o.model or {}, 'repo': repo_path(),
@@ -168,10 +236,10 @@ def main():
     for v in bviol:
         lines.append(f"VIOLATION property={prop} replay={v['replay']}")
     wall = time.time() - t0
-    n_obl = sum(1 for o in obls if (o.goal is not None or o.status in ('undecided', 'error')) and o.status != 'known')
+    n_obl = sum(1 for o in obls if o.is_real and o.status != 'known')
     n_dis = sum(1 for o in obls if o.status == 'valid')
     solver_time = sum(o.time for o in obls)
-    files = {os.path.relpath(f, repo_path()): sha(f) for f in sorted(E.I.files_used) if f.startswith(repo_path())}
+    files = {os.path.relpath(f, repo_path()): sha(f) for f in sorted(files_used) if f.startswith(repo_path())}
     level = info['level'] if not (undecided or errs or errors) else info['level']
     ev = {
         'property_id': prop, 'tier': tier, 'seed': seed, 'level': info['level'],
